@@ -26,12 +26,15 @@ PCLS_YAML = [{"decl": "class Cls", "declarations": [
     {"decl": "Cls(int v)"}, {"decl": "~Cls()"}, {"decl": "int get() const"}, {"decl": "void set(int v)"},
     {"decl": "int add(const Cls & other, int k = 2)"},
     # member variables (docs/classes.rst "Member Variables"): descriptors of the Python type
-    {"decl": "int value"}, {"decl": "int ro +readonly"}, {"decl": "double other +name(alt)"}]},
+    {"decl": "int value"}, {"decl": "int ro +readonly"}, {"decl": "double other +name(alt)"},
+    {"decl": "unsigned short us"}, {"decl": "uint8_t u8"}, {"decl": "long long ll"}, {"decl": "float fl"}]},
+    # (a bool member has no descriptor statements: Shroud writes an #error line for it, as documented in wrapp.py)
     # single inheritance (tp_base): the derived type has its own method and inherits the others
     {"decl": "class Derived : public Cls", "declarations": [
         {"decl": "Derived(int v, int w)"}, {"decl": "~Derived()"}, {"decl": "int extra() const"}]}]
 PCLS_HPP = """
-class Cls { public: int value; int ro; double other; Cls(int v, bool quiet) : value(v), ro(2 * v), other(v + 0.5) { (void)quiet; } explicit Cls(int v); ~Cls(); int get() const; void set(int v); int add(const Cls &other, int k = 2); };
+class Cls { public: int value; int ro; double other; unsigned short us; uint8_t u8; long long ll; float fl; bool flag;
+    Cls(int v, bool quiet) : value(v), ro(2 * v), other(v + 0.5), us(7), u8(3), ll(100), fl(1.5f), flag(true) { (void)quiet; } explicit Cls(int v); ~Cls(); int get() const; void set(int v); int add(const Cls &other, int k = 2); };
 """
 PCLS_HPP += """
 class Derived : public Cls { public: int more; Derived(int v, int w); ~Derived(); int extra() const; };
@@ -47,7 +50,7 @@ int Derived::extra() const {
     vt_begin("LibExit", "Derived::extra"); vt_target("ns1::Derived::extra()"); vt_int(rv); vt_end(); return rv; }
 """
 PCLS_CPP += """
-Cls::Cls(int v) : value(v), ro(2 * v), other(v + 0.5) {
+Cls::Cls(int v) : value(v), ro(2 * v), other(v + 0.5), us(7), u8(3), ll(100), fl(1.5f), flag(true) {
     vt_begin("LibEnter", "Cls::Cls"); vt_target("ns1::Cls::Cls(int)"); vt_int(v); vt_end();
     vt_begin("LibExit", "Cls::Cls"); vt_target("ns1::Cls::Cls(int)"); vt_obj(this); vt_end(); }
 Cls::~Cls() { }
@@ -260,6 +263,7 @@ start = int(sys.argv[3])
 sys.path.insert(0, sys.argv[4])
 out = open(sys.argv[2], "a")
 import psub
+IMMORTAL = 1 << 30
 objs = {}
 order = {}
 def enc(v, hint=None):
@@ -281,13 +285,21 @@ def enc(v, hint=None):
 def deref(x):
     if isinstance(x, dict) and "__pt__" in x: return psub.Pt(*x["__pt__"])
     return objs[x[1:]] if isinstance(x, str) and x.startswith("@") else x
-for k in range(start, len(plan)):
-    c = plan[k]["call"]
-    out.write(json.dumps({"ev": "PyCall", "k": k}) + "\n"); out.flush()
+def counts(objs_):
+    return [sys.getrefcount(o_) for o_ in objs_]       # the same overhead whenever it is called
+CALIB = counts([object()])[0]                          # an object referenced by the measured list only
+def run_one(c):
     exc, ret = "", []
+    refs = {"args": [], "res": []}
+    pos = [deref(x) for x in c["pos"]]
+    kw = {n: deref(v) for n, v in c["kw"].items()}
+    uniq = []
+    for cand in pos + list(kw.values()):
+        if sys.getrefcount(cand) < IMMORTAL and not any(cand is u for u in uniq): uniq.append(cand)
+    cand = None
+    before = counts(uniq)
+    r = None
     try:
-        pos = [deref(x) for x in c["pos"]]
-        kw = {n: deref(v) for n, v in c["kw"].items()}
         if c["kind"] == "func":
             r = getattr(psub, c["name"])(*pos, **kw)
         elif c["kind"] == "ctor":
@@ -296,13 +308,37 @@ for k in range(start, len(plan)):
             order[id(r)] = len(order) + 1
         else:
             r = getattr(objs[c["obj"]], c["name"])(*pos, **kw)
+        after = counts(uniq)
+        n = len(r) if isinstance(r, tuple) else (0 if r is None else 1)
+        elem = (lambda q: r[q]) if isinstance(r, tuple) else (lambda q: r)
+        for q, u in enumerate(uniq):
+            held = sum(1 for z in range(n) if elem(z) is u)
+            refs["args"].append(after[q] - before[q] - held)
+        stored = 1 if c["kind"] == "ctor" else 0
+        if isinstance(r, tuple) and sys.getrefcount(r) < IMMORTAL:
+            refs["res"].append(counts([r])[0] - CALIB - 1)        # held by the variable r only
+        parts = list(r) if isinstance(r, tuple) else ([] if r is None else [r])
+        pc = counts(parts)
+        for q in range(len(parts)):
+            if pc[q] >= IMMORTAL or any(parts[q] is u for u in uniq): continue
+            same = sum(1 for z in range(len(parts)) if parts[z] is parts[q])
+            # references from `parts` (same), from r (the tuple: same; or the variable r: 1), from objs when stored
+            expect = CALIB - 1 + same + (same if isinstance(r, tuple) else 1) + stored
+            refs["res"].append(pc[q] - expect)
         rt = c.get("rt") or []
         if r is None: ret = []
         elif isinstance(r, tuple): ret = [enc(x, rt[i] if i < len(rt) else None) for i, x in enumerate(r)]
         else: ret = [enc(r, rt[0] if rt else None)]
     except BaseException as ex:
         exc = type(ex).__name__
-    out.write(json.dumps({"ev": "PyReturn", "k": k, "exc": exc, "ret": ret}) + "\n"); out.flush()
+        ex = None
+        refs = {"args": [a - b for a, b in zip(counts(uniq), before)], "res": []}
+    return exc, ret, refs
+for k in range(start, len(plan)):
+    c = plan[k]["call"]
+    out.write(json.dumps({"ev": "PyCall", "k": k}) + "\n"); out.flush()
+    exc, ret, refs = run_one(c)
+    out.write(json.dumps({"ev": "PyReturn", "k": k, "exc": exc, "ret": ret, "refs": refs}) + "\n"); out.flush()
 '''
 
 
@@ -313,8 +349,9 @@ out = open(sys.argv[1], "a")
 import psub
 objs = []
 def log(ev, m, o, v):
-    if isinstance(v, float): val = {"t": "d", "v": int(v * 4)}
-    elif isinstance(v, int) and not isinstance(v, bool): val = {"t": "i", "v": v}
+    if isinstance(v, bool): val = {"t": "i", "v": 1 if v else 0}
+    elif isinstance(v, float): val = {"t": "d", "v": int(v * 4)}
+    elif isinstance(v, int): val = {"t": "i", "v": v}
     else: val = None
     out.write(json.dumps({"ev": ev if val else "MemberErr", "f": m, "vals": [{"t": "pyobj", "v": o}] + ([val] if val else [])}) + "\n"); out.flush()
 def new(v):
@@ -340,6 +377,18 @@ except BaseException:
 if not ok:
     out.write(json.dumps({"ev": "MemberSet", "f": "ro", "vals": [{"t": "pyobj", "v": a}, {"t": "i", "v": 99}]}) + "\n"); out.flush()
 get(a, "ro")
+# members of other types: read, write, read; a value of the wrong type is refused and changes nothing
+def bad(o, m, v):
+    raised = 0
+    try: setattr(objs[o], m, v)
+    except BaseException: raised = 1
+    log("MemberBad", m, o, raised)
+for m, v in (("us", 40000), ("u8", 200), ("ll", -5), ("fl", 2.25), ("value", 11)):
+    get(c, m); put(c, m, v); get(c, m)
+    for wrong in ("x", None, [1]):
+        bad(c, m, wrong); get(c, m)
+    objs[c].get()                           # a pending exception would surface here
+    get(b, m)
 '''
 
 
@@ -487,10 +536,11 @@ def run_plan(d, plan):
         except ValueError:
             continue
         if e["ev"] == "PyCall":
-            cur = {"k": e["k"], "events": [], "exc": "crash", "ret": [], "crashed": crashes.get(e["k"], "")}
+            cur = {"k": e["k"], "events": [], "exc": "crash", "ret": [], "crashed": crashes.get(e["k"], ""), "refs": {"args": [], "res": []}}
             res[e["k"]] = cur
         elif e["ev"] == "PyReturn":
             cur["exc"], cur["ret"] = e["exc"], e["ret"]
+            cur["refs"] = e.get("refs") or {"args": [], "res": []}
         elif e["ev"] in ("LibEnter", "LibExit") and cur is not None:
             tg, vals = "", []
             for x in e["vals"]:
